@@ -240,9 +240,9 @@ def run : Handler := fun req => do
     fs.eraseDups.length != fs.length
   -- the call that starts the request: `.get(url)` … or `.request(reqwest::Method::OPTIONS, url)`
   let httpText : List Char := match init with | .builtin m => m | .request m => "reqwest::Method::".toList ++ m
-  -- oas3 0.20.1 `PathItem::methods()` lists TRACE twice: the one TRACE operation is registered twice and two
-  -- (identical) client methods are emitted; "exactly once" is C08's matter (F05-1), here every one is judged
-  let copies : Nat := if method.map Char.toLower == "trace".toList then 2 else 1
+  -- (oas3 0.20.1 `PathItem::methods()` lists TRACE twice; since `fix:` cdf3874 the registry keeps one operation per
+  -- (path, method), so exactly one client method is emitted for every method: F05-1 / F08-6)
+  let copies : Nat := 1
   let model1 := match parsed with
     | .ok p => Json.mkObj [("http", str httpText),
         ("pushes", Json.arr (p.segments.map Oas3.Driver.Path.segJson).toArray),
